@@ -165,6 +165,9 @@ func c03Child(dir string, seed uint64, tier string) {
 			if k == 2 {
 				kind = "xfer-same-ref-twice" // two transfer connections claim the same reference number at once
 			}
+			if k == 4 {
+				kind = "xfer-folder-upload-bad-item" // a valid folder-upload reference, then item headers that do not add up
+			}
 			if k == 3 {
 				kind = "post-odd-presence" // name / icon / options fields of odd lengths, then the peer stays for a while
 			}
@@ -267,13 +270,15 @@ func c03Child(dir string, seed uint64, tier string) {
 					t.waitReply(90, 500*time.Millisecond)
 				case "xfer-random":
 					c.Write(r.Bytes(r.Pick(3, 16, 17, 200)))
-				case "xfer-valid-ref-garbage", "xfer-upload-declared-size", "xfer-same-ref-twice":
+				case "xfer-valid-ref-garbage", "xfer-upload-declared-size", "xfer-same-ref-twice", "xfer-folder-upload-bad-item":
 					c.Write(handshakeBytes)
 					c.Write(login)
 					t.waitReply(1, 2*time.Second)
 					var req []byte
 					if kind == "xfer-valid-ref-garbage" || kind == "xfer-same-ref-twice" {
 						req = refEncode(202, 50, RField{201, []byte("file.bin")})
+					} else if kind == "xfer-folder-upload-bad-item" {
+						req = refEncode(213, 50, RField{201, []byte(fmt.Sprintf("upf-%s", src))}, RField{202, encodePath([][]byte{[]byte("Uploads")})}, RField{108, be32(4000)}, RField{220, be16(3)})
 					} else {
 						req = refEncode(203, 50, RField{201, []byte(fmt.Sprintf("up-%s.bin", src))}, RField{202, encodePath([][]byte{[]byte("Uploads")})}, RField{108, be32(1 << 20)})
 					}
@@ -324,7 +329,23 @@ func c03Child(dir string, seed uint64, tier string) {
 					x.SetWriteDeadline(time.Now().Add(3 * time.Second))
 					pre := append(append([]byte("HTXF"), ref...), 0, 0, 0, 0, 0, 0, 0, 0)
 					x.Write(pre)
-					if kind == "xfer-valid-ref-garbage" {
+					if kind == "xfer-folder-upload-bad-item" {
+						// item headers whose sizes and counts disagree: a data size of 4 (no path bytes) with one path
+						// item announced, a path item longer than the header, a size below 4
+						xt := &tcpClient{c: x}
+						xt.readFor(30 * time.Millisecond)
+						switch r.Intn(4) {
+						case 0:
+							x.Write([]byte{0, 4, 0, 0, 0, 1})
+						case 1:
+							x.Write([]byte{0, 8, 0, 0, 0, 2, 0, 0, 200, 'a'})
+						case 2:
+							x.Write([]byte{0, 2, 0, 1, 0, 1, 0, 0})
+						default:
+							x.Write([]byte{0, 7, 0, 0, 0, 9, 0, 0, 1})
+						}
+						xt.readFor(60 * time.Millisecond)
+					} else if kind == "xfer-valid-ref-garbage" {
 						// a download: just hang up after a few bytes came
 						xt := &tcpClient{c: x}
 						xt.readFor(time.Duration(r.Intn(30)) * time.Millisecond)
